@@ -524,16 +524,11 @@ KNOWN_SIGNATURES = {
     # the BibTeX writer re-escapes # % & _ ~ (set aside by the property text)
     'F18': lambda kind, fn, arg, detail: kind == 'oracle' and ((fn == 12 and arg[0] == 0 and has_five(arg[1])) or
                                                               (fn == 13 and 0 in arg[0] and has_five(arg[2]))),
-    # BibTeXML reader recognises only the exact role names author / editor
-    'FC02a': lambda kind, fn, arg, detail: kind == 'oracle' and ((fn == 12 and arg[0] == 1 and odd_roles(arg[1])) or
-                                                                (fn == 13 and 1 in arg[0] and odd_roles(arg[2]))),
     # YAML writer: a field called "type" overwrites the entry type
     'FC02b': lambda kind, fn, arg, detail: kind == 'oracle' and ((fn == 12 and arg[0] == 2 and type_field(arg[1])) or
                                                                 (fn == 13 and 2 in arg[0] and type_field(arg[2]))),
     # Person.__repr__ = Person(str(person)): str() drops empty parts ('Plato' for first=Plato, 'Smith, Jr' for last+lineage)
     'FC02e': lambda kind, fn, arg, detail: kind == 'oracle' and fn == 16 and str_not_reparsed(arg[0]),
-    # BibliographyData.__repr__ breaks the line inside another token
-    'FC02c': lambda kind, fn, arg, detail: kind == 'oracle' and fn == 16 and repr_key_clash(arg[0]),
 }
 
 def replay_known(finding):
@@ -1055,7 +1050,7 @@ def extra_checks(ck, tier, rng):
     yield {'name': 'library_hypotheses_sample', 'evaluations': n, 'failures': fails[:5],
            'info': 'PyYAML load(dump(t)) = t and ElementTree fromstring(tostring(e)) = e on the value / name / key pools'}
 
-RULE = ('pinned: the inputs of the findings (F18 five characters, FC02a role spelling, FC02b field "type", FC02c repr), the trailing-backslash tokens of DESIGN.md, empty databases; '
+RULE = ('pinned: the inputs of the findings (F18 five characters, FC02b field "type", FC02e repr of a person without last name; as regressions the repaired FC02a role spelling and FC02c repr), the trailing-backslash tokens of DESIGN.md, empty databases; '
         'exhaustive: Writer.quote/check_braces on every string over {a { } " \\ space} up to the length bound; the LaTeX encoder on every string over {a ~ space # \\ {}; '
         'one-field databases over a pool of 43 values (braces, quotes, backslashes, $ ^, whitespace shapes, unbalanced, non-ASCII) x 3 formats (value as field and as preamble); '
         'persons: 19 parsed names (parts of up to 6 tokens) x 4 role spellings x 3 formats and all part lists over a pool of 8 tokens (empty, trailing backslash, ~, braced); '
